@@ -116,7 +116,6 @@ PROPS = {
  "C15": dict(
   families=[dict(name="defaults", model="defaults", quick=2500, thorough=60000)],
   rule="schemas with defaults of every JSON type at depth <= 3 of properties, with and without required (incl. required names that are not properties), on object and non-object subschemas, occasionally a default that violates its schema or a $dynamicRef; ValidateDefaults on in half of the cases; 7 instances per schema (every generated subset of properties present, non-objects at any position, {}), ApplyDefaults applied twice; observables: Unmarshal/Resolve outcome, resulting instance (canonical JSON) compared with the model; laws on the package: idempotent, extends; non-trivial: >= 1 default below >= 1 properties; distinct by document hash",
-  partial="idempotence and the characterisation of inserted values are not proved (laws + correspondence)",
   trusted_base=["encoding/json decoding of the default into the element type", "reflect map operations"],
   assumptions=["canonical instances (map[string]any); typed element types and structs are outside the model"],
  ),
